@@ -11,7 +11,7 @@ from .contracts import lookup, SpecEval
 from .front import key_of_function, find_function
 from .terms import (And, Or, Not, Implies, Ite, Eq, asV, asB, asI, asS, mkB, mkI, mkS, TRUE, FALSE,
                     const_term, seq_of_terms, KIND_OF_PY)
-from .values import (Val, PyC, PyList, SymObj, Closure, BM, Exc, OutOfSubset, fresh_name)
+from .values import (Val, PyC, PyList, SymObj, SDict, Closure, BM, Exc, OutOfSubset, fresh_name)
 from .exprs import is_exc
 
 LIST_MUTATORS = {"append", "extend", "insert", "pop", "remove", "clear", "sort", "reverse"}
@@ -97,7 +97,7 @@ class CallMixin:
             if inspect.ismethod(val):
                 return [(st, BM(base, name, val.__func__))]
             return [(st, PyC(val))]
-        if isinstance(base, PyList):
+        if isinstance(base, (PyList, dict, SDict)):
             return [(st, BM(base, name))]
         if isinstance(base, SymObj):
             d = _static(base.cls, name)
@@ -236,6 +236,10 @@ class CallMixin:
             return {k: PyC(x) for k, x in v.obj.items()}
         if isinstance(v, dict):
             return dict(v)
+        if isinstance(v, SDict) and v.term is None and all(cnd == TRUE for cnd, _ in v.entries.values()):
+            return {kk: val for kk, (cnd, val) in v.entries.items()}
+        if isinstance(v, SDict):
+            return {"__symbolic__": self.lift(v)}
         if isinstance(v, Val) and v.kind == "dict":
             return {"__symbolic__": v}
         raise OutOfSubset("**kwargs of unknown keys", node)
@@ -258,6 +262,12 @@ class CallMixin:
                 return h(st, args, kwargs, node)
             if o is _object_init:
                 return [(st, PyC(None))]
+            import inspect as _insp
+            if (o is _insp.signature or type(getattr(o, "__self__", None)).__name__ in ("mappingproxy", "Signature", "Parameter", "odict_values", "dict_values")) \
+                    and all(isinstance(a, PyC) for a in args) and not kwargs:
+                # reflection on the live classes (signatures of constructors): evaluated, not modelled
+                self.trusted_used.add("inspect.signature of the live constructors is a reflection constant")
+                return [(st, PyC(o(*[a.obj for a in args])))]
             if isinstance(o, type):
                 return self.construct(st, o, args, kwargs, node)
             if inspect.isfunction(o):
@@ -343,7 +353,10 @@ class CallMixin:
                     raise OutOfSubset("duplicate argument", node)
                 env[name] = kwargs.pop(name)
         if a.kwarg:
-            env[a.kwarg.arg] = dict(kwargs)
+            if set(kwargs) == {"__symbolic__"}:
+                env[a.kwarg.arg] = kwargs["__symbolic__"]
+            else:
+                env[a.kwarg.arg] = dict(kwargs)
             kwargs = {}
         if kwargs:
             raise OutOfSubset(f"unexpected keyword arguments {list(kwargs)}", node)
